@@ -202,6 +202,26 @@ theorem table_depends_on_mode_only (ht ht' i : Nat) (hm : ht % 32 = ht' % 32)
     unfold isAnyoneCanPay SIGHASH_ANYONECANPAY; rw [ha]
   cases p <;> simp [committed, isAll, h1, h2, h3]
 
+/-! ### the catalogue and Python's list mutation -/
+
+theorem swapAt_none {α} (xs : List α) (k l : Nat) (h : ¬ (k < xs.length ∧ l < xs.length)) : swapAt xs k l = xs := by
+  unfold swapAt
+  by_cases hk : k < xs.length
+  · have hl : ¬ l < xs.length := fun hl => h ⟨hk, hl⟩
+    rw [List.getElem?_eq_none (by omega : xs.length ≤ l)]
+    cases xs[k]? <;> rfl
+  · rw [List.getElem?_eq_none (by omega : xs.length ≤ k)]
+
+/-- an edit Python cannot carry out (IndexError) leaves the transaction as it was -/
+theorem apply_not_applicable (e : Edit) (t : Tx) (h : applicable e t = false) : apply e t = t := by
+  cases e <;> simp only [applicable, decide_eq_false_iff_not, Nat.not_lt, Bool.and_eq_false_iff] at h <;>
+    simp only [apply]
+  all_goals first
+    | (rw [List.modify_eq_self (by omega)])
+    | (rw [List.eraseIdx_of_length_le (by omega)])
+    | (rw [swapAt_none _ _ _ (by omega)])
+    | cases h
+
 /-! ### non-vacuity of Part 1 -/
 
 /-- 3 inputs, 3 outputs -/
@@ -257,6 +277,16 @@ example : ¬ changes 3 1 (.setValue 1 2000) exTx := by
 /-- swapping two inputs that differ is seen under ALL; under ANYONECANPAY only if `i` is involved -/
 example : changedParts 1 1 exTx (apply (.swapInputs 0 2) exTx) ≠ [] ∧
     changedParts 0x81 1 exTx (apply (.swapInputs 0 2) exTx) = [] := by decide
+
+/-- insertion beyond the end appends (Python `list.insert`); removal / field writes beyond the end are
+    not applicable (IndexError) and leave the transaction unchanged -/
+example : apply (.insertInput 7 ⟨⟨[], 0⟩, [], 0⟩) exTx = { exTx with vin := exTx.vin ++ [⟨⟨[], 0⟩, [], 0⟩] } := by decide
+example : applicable (.removeInput 3) exTx = false ∧ apply (.removeInput 3) exTx = exTx := by decide
+/-- why `insertSafe`: signing input 3 of a 3-input transaction (the "return one" case) under ANYONECANPAY,
+    `insertInput 4` is `Uncommitted` by the table (4 > 3) but appends at position 3, creating input 3 -/
+example : Uncommitted 0x81 3 (.insertInput 4 ⟨⟨[], 0⟩, [], 0⟩) = true ∧
+    insertSafe 3 (.insertInput 4 ⟨⟨[], 0⟩, [], 0⟩) exTx = false ∧
+    ¬ Regular 0x81 3 exTx ∧ Regular 0x81 3 (apply (.insertInput 4 ⟨⟨[], 0⟩, [], 0⟩) exTx) := by decide
 
 /-! ## PART 2 — acceptance: the interpreter model of C06 on the standard templates
 
@@ -467,19 +497,28 @@ end templates
   of `tx`.  For every template:
     * an edit that is `Uncommitted` for the hash type of the signature(s) leaves the verdict unchanged
       (no assumption at all);
-    * a `Committed` edit that changes a committed part turns acceptance into `VerifyScriptError`,
-      PROVIDED (hypotheses, the cryptographic half) SHA-256d does not collide on the two hashed
-      messages (`hcr` — with it the table theorems give "the new digest differs from the signed one")
-      and the old signature does not verify for THAT new digest (`hunf`: one instance, for the one
-      digest of the edited transaction, conditional on its being different).  `hunf` is the
-      unforgeability assumption for this instance — an adversary who edits a committed part and keeps
-      the signature has produced a signature on a new message.  It is NOT assumed that a signature is
-      valid for a single digest only: that is false for ECDSA (a signature (r, s) valid for z under the
-      secret d is also valid for −z − 2rd mod n, and for z + n when that is below 2^256; audit F1);
-      `hunf` holds for all but those ≤ 2 exceptional values of the new digest, which an editor of the
-      transaction can hit only by inverting SHA-256d.  Supplying the plain fact
-      `ecdsa body key (new digest) = false` discharges `hunf` (and then `hcr` and the table hypotheses
-      are not needed at all: that degenerate form is `template_rejects_wrong_key_*`). -/
+    * (an edit that is `Uncommitted` needs the side condition `insertSafe`: an insertion beyond the
+      end appends, which is "after position i" only if position i exists);
+    * for a `Committed` edit that changes a committed part, WHAT IS PROVED is exactly this and no more:
+        (a) the digest of the edited transaction differs from the original one, given `hcr`
+            (SHA-256d does not collide on the two hashed messages) — `committed_edit_changes_digest`;
+        (b) a signature that the verifier does not accept for the digest at hand is rejected by the
+            template with VerifyScriptError — `template_rejects_wrong_key_*`.
+      The `*_committed_edit_rejects` theorems are the composition of (a) and (b) through the
+      hypothesis `hunf : new digest ≠ old digest → ecdsa body key (new digest) = false`.  Under the size
+      hypotheses the CONSEQUENT of `hunf` is equivalent to the conclusion (`*_verify`: verdict =
+      `if ecdsa … then ok else VerifyScriptError`), so these theorems add to (a) only the plumbing (b):
+      they say "IF the old signature does not verify for the new, different digest THEN the spend is
+      rejected".  That the old signature does not verify for a new digest is ECDSA unforgeability for
+      that instance; it is assumed, never proved, and it is NOT the blanket claim "a signature is valid
+      for one digest only", which is false for ECDSA: (r, s) valid for z under secret d also verifies
+      for −z − 2rd mod n, and every digest has the representatives z and z + n below 2^256; with the
+      abscissa candidates r and r + n this leaves at most a handful (≤ 8) of exceptional 256-bit values
+      of the new digest for which `hunf` fails, which an editor of the transaction can hit only by
+      inverting SHA-256d (audit 1 F1, audit 2 F1).
+      `*_committed_edit_rejects` do not assume that the signature was valid for the ORIGINAL
+      transaction; `*_committed_edit_flips` add that (`horacle`, ECDSA correctness of the signer, also
+      assumed) and conclude "accepted before ∧ rejected after". -/
 
 section edits
 open BtcVerif.Model.ScriptEval BtcVerif.Spec.Script BtcVerif.Spec.Templates BtcVerif.C05T
@@ -562,7 +601,7 @@ theorem multisig_uncommitted_edit_same_verdict (m : Nat) (keys sigs : List Bytes
     exact chkSig_uncommitted_edit hashes ecdsa tx i e _ s k (hU s (by simpa using hs')) hsafe
   rw [this]
 
-/-! ### committed edits: acceptance becomes rejection (under the cryptographic hypotheses) -/
+/-! ### committed edits: the kept signature is rejected if it does not verify for the new digest -/
 
 theorem p2pk_committed_edit_rejects (body : Bytes) (ht : UInt8) (key : Bytes)
     (hfl : fl.admissible = true) (hk : key.length < 0x4c) (hs : body.length + 1 < 0x4c)
@@ -806,6 +845,146 @@ theorem p2sh_multisig_committed_edit_rejects (m : Nat) (keys sigs : List Bytes)
     · intro s hs' k hk'
       exact hf s (by simpa using hs') k (by simpa using hk')
   rw [this]; rfl
+
+/-! ### accepted before, rejected after
+
+  The `*_committed_edit_rejects` theorems above do not assume that the signature was valid for the
+  ORIGINAL transaction.  These do: `horacle` (the verifier accepts the signature for the original
+  digest — ECDSA correctness of the signer, a hypothesis) is added and the conclusion is the pair
+  "accepted before the edit ∧ VerifyScriptError after it". -/
+
+theorem p2pk_committed_edit_flips (body : Bytes) (ht : UInt8) (key : Bytes)
+    (hfl : fl.admissible = true) (hk : key.length < 0x4c) (hs : body.length + 1 < 0x4c)
+    (hne : body.length + 1 ≠ key.length)
+    (hC : Committed ht.toNat i e = true) (hch : changes ht.toNat i e tx)
+    (wf : WFc tx) (wf' : WFc (apply e tx)) (hr : Regular ht.toNat i tx) (hr' : Regular ht.toNat i (apply e tx))
+    (hcr : Crypto.hash256 (legacyPreimage (p2pkScript key) (apply e tx) i ht.toNat) =
+             Crypto.hash256 (legacyPreimage (p2pkScript key) tx i ht.toNat) →
+           legacyPreimage (p2pkScript key) (apply e tx) i ht.toNat = legacyPreimage (p2pkScript key) tx i ht.toNat)
+    (hunf : (legacySighash (p2pkScript key) (apply e tx) i ht.toNat).1 ≠ (legacySighash (p2pkScript key) tx i ht.toNat).1 →
+      ecdsa body key (legacySighash (p2pkScript key) (apply e tx) i ht.toNat).1 = false)
+    (horacle : ecdsa body key (legacySighash (p2pkScript key) tx i ht.toNat).1 = true) :
+    (verifyScript (txCtx hashes ecdsa tx i) fl (p2pkScriptSig (body ++ [ht])) (p2pkScript key) = .ok ()) ∧
+    (verifyScript (txCtx hashes ecdsa (apply e tx) i) fl (p2pkScriptSig (body ++ [ht])) (p2pkScript key) =
+      .error .verify) := by
+  exact ⟨template_accepts_p2pk (txCtx hashes ecdsa tx i) fl body ht key hfl (txCtx_sigTotal ..) hk hs hne horacle,
+    p2pk_committed_edit_rejects hashes ecdsa tx i e fl body ht key hfl hk hs hne hC hch wf wf' hr hr' hcr hunf⟩
+
+theorem p2pkh_committed_edit_flips (body : Bytes) (ht : UInt8) (key : Bytes)
+    (hfl : fl.admissible = true) (hk : key.length < 0x4c) (hs : body.length + 1 < 0x4c)
+    (hhl : (hashes.hash160 key).length = 20) (hne : body.length + 1 ≠ 20)
+    (hC : Committed ht.toNat i e = true) (hch : changes ht.toNat i e tx)
+    (wf : WFc tx) (wf' : WFc (apply e tx)) (hr : Regular ht.toNat i tx) (hr' : Regular ht.toNat i (apply e tx))
+    (hcr : Crypto.hash256 (legacyPreimage (p2pkhScript (hashes.hash160 key)) (apply e tx) i ht.toNat) =
+             Crypto.hash256 (legacyPreimage (p2pkhScript (hashes.hash160 key)) tx i ht.toNat) →
+           legacyPreimage (p2pkhScript (hashes.hash160 key)) (apply e tx) i ht.toNat =
+             legacyPreimage (p2pkhScript (hashes.hash160 key)) tx i ht.toNat)
+    (hunf : (legacySighash (p2pkhScript (hashes.hash160 key)) (apply e tx) i ht.toNat).1 ≠
+        (legacySighash (p2pkhScript (hashes.hash160 key)) tx i ht.toNat).1 →
+      ecdsa body key (legacySighash (p2pkhScript (hashes.hash160 key)) (apply e tx) i ht.toNat).1 = false)
+    (horacle : ecdsa body key (legacySighash (p2pkhScript (hashes.hash160 key)) tx i ht.toNat).1 = true) :
+    (verifyScript (txCtx hashes ecdsa tx i) fl (p2pkhScriptSig (body ++ [ht]) key)
+        (p2pkhScript (hashes.hash160 key)) = .ok ()) ∧
+    (verifyScript (txCtx hashes ecdsa (apply e tx) i) fl (p2pkhScriptSig (body ++ [ht]) key)
+        (p2pkhScript (hashes.hash160 key)) = .error .verify) := by
+  exact ⟨template_accepts_p2pkh (txCtx hashes ecdsa tx i) fl body ht key hfl (txCtx_sigTotal ..) hk hs hhl hne horacle,
+    p2pkh_committed_edit_rejects hashes ecdsa tx i e fl body ht key hfl hk hs hhl hne hC hch wf wf' hr hr' hcr hunf⟩
+
+theorem multisig_committed_edit_flips (m : Nat) (keys sigs : List Bytes)
+    (hfl : fl.admissible = true) (hm1 : 1 ≤ m) (hmn : m ≤ keys.length) (hn : keys.length ≤ 20)
+    (hsl : sigs.length = m) (hk : ∀ k ∈ keys, k.length < 0x4c) (hs : ∀ s ∈ sigs, s.length < 0x4c)
+    (hs1 : ∀ s ∈ sigs, s.length ≠ 1) (hne : ∀ s ∈ sigs, ∀ k ∈ keys, s.length ≠ k.length)
+    (wf : WFc tx) (wf' : WFc (apply e tx))
+    (hB : ∀ s ∈ sigs, ∀ ht, s.getLast? = some ht →
+      Committed ht.toNat i e = true ∧ changes ht.toNat i e tx ∧ Regular ht.toNat i tx ∧
+      Regular ht.toNat i (apply e tx) ∧
+      (Crypto.hash256 (legacyPreimage (multisigScript m keys) (apply e tx) i ht.toNat) =
+          Crypto.hash256 (legacyPreimage (multisigScript m keys) tx i ht.toNat) →
+        legacyPreimage (multisigScript m keys) (apply e tx) i ht.toNat =
+          legacyPreimage (multisigScript m keys) tx i ht.toNat) ∧
+      (∀ k ∈ keys, (legacySighash (multisigScript m keys) (apply e tx) i ht.toNat).1 ≠
+          (legacySighash (multisigScript m keys) tx i ht.toNat).1 →
+        ecdsa s.dropLast k (legacySighash (multisigScript m keys) (apply e tx) i ht.toNat).1 = false))
+    (horacle : Matching (chkSig (txEnv hashes ecdsa tx i) (multisigScript m keys)) sigs keys) :
+    (verifyScript (txCtx hashes ecdsa tx i) fl (multisigScriptSig sigs) (multisigScript m keys) = .ok ()) ∧
+    (verifyScript (txCtx hashes ecdsa (apply e tx) i) fl (multisigScriptSig sigs) (multisigScript m keys) =
+      .error .verify) := by
+  exact ⟨template_accepts_multisig (txCtx hashes ecdsa tx i) fl m keys sigs hfl (txCtx_sigTotal ..) hm1 hmn hn hsl hk hs hs1 hne horacle,
+    multisig_committed_edit_rejects hashes ecdsa tx i e fl m keys sigs hfl hm1 hmn hn hsl hk hs hs1 hne wf wf' hB⟩
+
+theorem p2sh_p2pk_committed_edit_flips (body : Bytes) (ht : UInt8) (key : Bytes)
+    (hfl : fl.admissible = true) (hp : fl.p2sh = true) (hk : key.length + 2 < 0x4c) (hs : body.length + 1 < 0x4c)
+    (hhl : ∀ x, (hashes.hash160 x).length = 20) (hne : body.length + 1 ≠ key.length)
+    (hC : Committed ht.toNat i e = true) (hch : changes ht.toNat i e tx)
+    (wf : WFc tx) (wf' : WFc (apply e tx)) (hr : Regular ht.toNat i tx) (hr' : Regular ht.toNat i (apply e tx))
+    (hcr : Crypto.hash256 (legacyPreimage (p2pkScript key) (apply e tx) i ht.toNat) =
+             Crypto.hash256 (legacyPreimage (p2pkScript key) tx i ht.toNat) →
+           legacyPreimage (p2pkScript key) (apply e tx) i ht.toNat = legacyPreimage (p2pkScript key) tx i ht.toNat)
+    (hunf : (legacySighash (p2pkScript key) (apply e tx) i ht.toNat).1 ≠ (legacySighash (p2pkScript key) tx i ht.toNat).1 →
+      ecdsa body key (legacySighash (p2pkScript key) (apply e tx) i ht.toNat).1 = false)
+    (horacle : ecdsa body key (legacySighash (p2pkScript key) tx i ht.toNat).1 = true) :
+    (verifyScript (txCtx hashes ecdsa tx i) fl
+        (p2shScriptSig (p2pkScriptSig (body ++ [ht])) (p2pkScript key)) (p2shScript (hashes.hash160 (p2pkScript key))) = .ok ()) ∧
+    (verifyScript (txCtx hashes ecdsa (apply e tx) i) fl
+        (p2shScriptSig (p2pkScriptSig (body ++ [ht])) (p2pkScript key)) (p2shScript (hashes.hash160 (p2pkScript key))) =
+      .error .verify) := by
+  exact ⟨(by
+    have := p2sh_p2pk_verify (txCtx hashes ecdsa tx i) fl body ht key hfl hp (txCtx_sigTotal ..) hk hs hhl hne
+    rw [show (txCtx hashes ecdsa tx i).env.hashes = hashes from rfl] at this
+    rw [this]; exact if_pos horacle),
+    p2sh_p2pk_committed_edit_rejects hashes ecdsa tx i e fl body ht key hfl hp hk hs hhl hne hC hch wf wf' hr hr' hcr hunf⟩
+
+theorem p2sh_p2pkh_committed_edit_flips (body : Bytes) (ht : UInt8) (key : Bytes)
+    (hfl : fl.admissible = true) (hp : fl.p2sh = true) (hk : key.length < 0x4c) (hs : body.length + 1 < 0x4c)
+    (hhl : ∀ x, (hashes.hash160 x).length = 20) (hne : body.length + 1 ≠ 20)
+    (hC : Committed ht.toNat i e = true) (hch : changes ht.toNat i e tx)
+    (wf : WFc tx) (wf' : WFc (apply e tx)) (hr : Regular ht.toNat i tx) (hr' : Regular ht.toNat i (apply e tx))
+    (hcr : Crypto.hash256 (legacyPreimage (p2pkhScript (hashes.hash160 key)) (apply e tx) i ht.toNat) =
+             Crypto.hash256 (legacyPreimage (p2pkhScript (hashes.hash160 key)) tx i ht.toNat) →
+           legacyPreimage (p2pkhScript (hashes.hash160 key)) (apply e tx) i ht.toNat =
+             legacyPreimage (p2pkhScript (hashes.hash160 key)) tx i ht.toNat)
+    (hunf : (legacySighash (p2pkhScript (hashes.hash160 key)) (apply e tx) i ht.toNat).1 ≠
+        (legacySighash (p2pkhScript (hashes.hash160 key)) tx i ht.toNat).1 →
+      ecdsa body key (legacySighash (p2pkhScript (hashes.hash160 key)) (apply e tx) i ht.toNat).1 = false)
+    (horacle : ecdsa body key (legacySighash (p2pkhScript (hashes.hash160 key)) tx i ht.toNat).1 = true) :
+    let redeem := p2pkhScript (hashes.hash160 key)
+    (verifyScript (txCtx hashes ecdsa tx i) fl (p2shScriptSig (p2pkhScriptSig (body ++ [ht]) key) redeem)
+        (p2shScript (hashes.hash160 redeem)) = .ok ()) ∧
+    (verifyScript (txCtx hashes ecdsa (apply e tx) i) fl (p2shScriptSig (p2pkhScriptSig (body ++ [ht]) key) redeem)
+        (p2shScript (hashes.hash160 redeem)) = .error .verify) := by
+  intro redeem
+  exact ⟨(by
+    have := p2sh_p2pkh_verify (txCtx hashes ecdsa tx i) fl body ht key hfl hp (txCtx_sigTotal ..) hk hs hhl hne
+    rw [show (txCtx hashes ecdsa tx i).env.hashes = hashes from rfl] at this
+    rw [this]; exact if_pos horacle),
+    p2sh_p2pkh_committed_edit_rejects hashes ecdsa tx i e fl body ht key hfl hp hk hs hhl hne hC hch wf wf' hr hr' hcr hunf⟩
+
+theorem p2sh_multisig_committed_edit_flips (m : Nat) (keys sigs : List Bytes)
+    (hfl : fl.admissible = true) (hp : fl.p2sh = true) (hm1 : 1 ≤ m) (hmn : m ≤ keys.length)
+    (hn : keys.length ≤ 20) (hsl : sigs.length = m) (hk : ∀ k ∈ keys, k.length < 0x4c)
+    (hs : ∀ s ∈ sigs, s.length < 0x4c) (hs1 : ∀ s ∈ sigs, s.length ≠ 1)
+    (hne : ∀ s ∈ sigs, ∀ k ∈ keys, s.length ≠ k.length)
+    (hrl : (multisigScript m keys).length ≤ 520) (hhl : ∀ x, (hashes.hash160 x).length = 20)
+    (wf : WFc tx) (wf' : WFc (apply e tx))
+    (hB : ∀ s ∈ sigs, ∀ ht, s.getLast? = some ht →
+      Committed ht.toNat i e = true ∧ changes ht.toNat i e tx ∧ Regular ht.toNat i tx ∧
+      Regular ht.toNat i (apply e tx) ∧
+      (Crypto.hash256 (legacyPreimage (multisigScript m keys) (apply e tx) i ht.toNat) =
+          Crypto.hash256 (legacyPreimage (multisigScript m keys) tx i ht.toNat) →
+        legacyPreimage (multisigScript m keys) (apply e tx) i ht.toNat =
+          legacyPreimage (multisigScript m keys) tx i ht.toNat) ∧
+      (∀ k ∈ keys, (legacySighash (multisigScript m keys) (apply e tx) i ht.toNat).1 ≠
+          (legacySighash (multisigScript m keys) tx i ht.toNat).1 →
+        ecdsa s.dropLast k (legacySighash (multisigScript m keys) (apply e tx) i ht.toNat).1 = false))
+    (horacle : Matching (chkSig (txEnv hashes ecdsa tx i) (multisigScript m keys)) sigs keys) :
+    let redeem := multisigScript m keys
+    (verifyScript (txCtx hashes ecdsa tx i) fl (p2shScriptSig (multisigScriptSig sigs) redeem)
+        (p2shScript (hashes.hash160 redeem)) = .ok ()) ∧
+    (verifyScript (txCtx hashes ecdsa (apply e tx) i) fl (p2shScriptSig (multisigScriptSig sigs) redeem)
+        (p2shScript (hashes.hash160 redeem)) = .error .verify) := by
+  intro redeem
+  exact ⟨(p2sh_multisig_verify (txCtx hashes ecdsa tx i) fl m keys sigs hfl hp (txCtx_sigTotal ..) hm1 hmn hn hsl hk hs hs1 hne hrl hhl).1 horacle,
+    p2sh_multisig_committed_edit_rejects hashes ecdsa tx i e fl m keys sigs hfl hp hm1 hmn hn hsl hk hs hs1 hne hrl hhl wf wf' hB⟩
 
 end edits
 
@@ -1143,7 +1322,8 @@ theorem p2sh_multisig_uncommitted_edit_same_verdict_real (m : Nat) (keys sigs : 
   exact p2sh_multisig_uncommitted_edit_same_verdict realHashes ecdsaCheck tx i e fl m keys sigs hfl hp hm1 hmn hn hsl
     hk hs hs1 hne hrl realHashes_hash160_length hU hsafe
 
-/-! committed edits, real environment: `hunf` now speaks about the real verifier `Real.ecdsaCheck` -/
+/-! committed edits, real environment: `hunf` now speaks about the real verifier `Real.ecdsaCheck`
+    (same remark: composition of `committed_edit_changes_digest` with the template's closed form) -/
 
 theorem p2pk_committed_edit_rejects_real (body : Bytes) (ht : UInt8) (key : Bytes)
     (hfl : fl.admissible = true) (hk : key.length < 0x4c) (hs : body.length + 1 < 0x4c)
@@ -1264,6 +1444,136 @@ theorem p2sh_multisig_committed_edit_rejects_real (m : Nat) (keys sigs : List By
   rw [a]
   exact p2sh_multisig_committed_edit_rejects realHashes ecdsaCheck tx i e fl m keys sigs hfl hp hm1 hmn hn hsl hk hs
     hs1 hne hrl realHashes_hash160_length wf wf' hB
+
+/-! accepted before ∧ rejected after, real environment -/
+
+theorem p2pk_committed_edit_flips_real (body : Bytes) (ht : UInt8) (key : Bytes)
+    (hfl : fl.admissible = true) (hk : key.length < 0x4c) (hs : body.length + 1 < 0x4c)
+    (hne : body.length + 1 ≠ key.length)
+    (hC : Committed ht.toNat i e = true) (hch : changes ht.toNat i e tx)
+    (wf : WFc tx) (wf' : WFc (apply e tx)) (hr : Regular ht.toNat i tx) (hr' : Regular ht.toNat i (apply e tx))
+    (hcr : Crypto.hash256 (legacyPreimage (p2pkScript key) (apply e tx) i ht.toNat) =
+             Crypto.hash256 (legacyPreimage (p2pkScript key) tx i ht.toNat) →
+           legacyPreimage (p2pkScript key) (apply e tx) i ht.toNat = legacyPreimage (p2pkScript key) tx i ht.toNat)
+    (hunf : (legacySighash (p2pkScript key) (apply e tx) i ht.toNat).1 ≠ (legacySighash (p2pkScript key) tx i ht.toNat).1 →
+      ecdsaCheck body key (legacySighash (p2pkScript key) (apply e tx) i ht.toNat).1 = false)
+    (horacle : ecdsaCheck body key (legacySighash (p2pkScript key) tx i ht.toNat).1 = true) :
+    (verifyScript (realCtx tx (i : Int)) fl (p2pkScriptSig (body ++ [ht])) (p2pkScript key) = .ok ()) ∧
+    (verifyScript (realCtx (apply e tx) (i : Int)) fl (p2pkScriptSig (body ++ [ht])) (p2pkScript key) =
+      .error .verify) := by
+  exact ⟨(by rw [p2pk_verify_real tx i fl body ht key hfl (fieldsWF_of_WFc wf) hk hs hne]; exact if_pos horacle),
+    p2pk_committed_edit_rejects_real tx i e fl body ht key hfl hk hs hne hC hch wf wf' hr hr' hcr hunf⟩
+
+theorem p2pkh_committed_edit_flips_real (body : Bytes) (ht : UInt8) (key : Bytes)
+    (hfl : fl.admissible = true) (hk : key.length < 0x4c) (hs : body.length + 1 < 0x4c) (hne : body.length + 1 ≠ 20)
+    (hC : Committed ht.toNat i e = true) (hch : changes ht.toNat i e tx)
+    (wf : WFc tx) (wf' : WFc (apply e tx)) (hr : Regular ht.toNat i tx) (hr' : Regular ht.toNat i (apply e tx))
+    (hcr : Crypto.hash256 (legacyPreimage (p2pkhScript (realHashes.hash160 key)) (apply e tx) i ht.toNat) =
+             Crypto.hash256 (legacyPreimage (p2pkhScript (realHashes.hash160 key)) tx i ht.toNat) →
+           legacyPreimage (p2pkhScript (realHashes.hash160 key)) (apply e tx) i ht.toNat =
+             legacyPreimage (p2pkhScript (realHashes.hash160 key)) tx i ht.toNat)
+    (hunf : (legacySighash (p2pkhScript (realHashes.hash160 key)) (apply e tx) i ht.toNat).1 ≠
+        (legacySighash (p2pkhScript (realHashes.hash160 key)) tx i ht.toNat).1 →
+      ecdsaCheck body key (legacySighash (p2pkhScript (realHashes.hash160 key)) (apply e tx) i ht.toNat).1 = false)
+    (horacle : ecdsaCheck body key (legacySighash (p2pkhScript (realHashes.hash160 key)) tx i ht.toNat).1 = true) :
+    (verifyScript (realCtx tx (i : Int)) fl (p2pkhScriptSig (body ++ [ht]) key)
+        (p2pkhScript (realHashes.hash160 key)) = .ok ()) ∧
+    (verifyScript (realCtx (apply e tx) (i : Int)) fl (p2pkhScriptSig (body ++ [ht]) key)
+        (p2pkhScript (realHashes.hash160 key)) = .error .verify) := by
+  exact ⟨(by rw [p2pkh_verify_real tx i fl body ht key hfl (fieldsWF_of_WFc wf) hk hs hne]; exact if_pos horacle),
+    p2pkh_committed_edit_rejects_real tx i e fl body ht key hfl hk hs hne hC hch wf wf' hr hr' hcr hunf⟩
+
+theorem multisig_committed_edit_flips_real (m : Nat) (keys sigs : List Bytes)
+    (hfl : fl.admissible = true) (hm1 : 1 ≤ m) (hmn : m ≤ keys.length) (hn : keys.length ≤ 20)
+    (hsl : sigs.length = m) (hk : ∀ k ∈ keys, k.length < 0x4c) (hs : ∀ s ∈ sigs, s.length < 0x4c)
+    (hs1 : ∀ s ∈ sigs, s.length ≠ 1) (hne : ∀ s ∈ sigs, ∀ k ∈ keys, s.length ≠ k.length)
+    (wf : WFc tx) (wf' : WFc (apply e tx))
+    (hB : ∀ s ∈ sigs, ∀ ht, s.getLast? = some ht →
+      Committed ht.toNat i e = true ∧ changes ht.toNat i e tx ∧ Regular ht.toNat i tx ∧
+      Regular ht.toNat i (apply e tx) ∧
+      (Crypto.hash256 (legacyPreimage (multisigScript m keys) (apply e tx) i ht.toNat) =
+          Crypto.hash256 (legacyPreimage (multisigScript m keys) tx i ht.toNat) →
+        legacyPreimage (multisigScript m keys) (apply e tx) i ht.toNat =
+          legacyPreimage (multisigScript m keys) tx i ht.toNat) ∧
+      (∀ k ∈ keys, (legacySighash (multisigScript m keys) (apply e tx) i ht.toNat).1 ≠
+          (legacySighash (multisigScript m keys) tx i ht.toNat).1 →
+        ecdsaCheck s.dropLast k (legacySighash (multisigScript m keys) (apply e tx) i ht.toNat).1 = false))
+    (horacle : Matching (chkSig (txEnv realHashes ecdsaCheck tx i) (multisigScript m keys)) sigs keys) :
+    (verifyScript (realCtx tx (i : Int)) fl (multisigScriptSig sigs) (multisigScript m keys) = .ok ()) ∧
+    (verifyScript (realCtx (apply e tx) (i : Int)) fl (multisigScriptSig sigs) (multisigScript m keys) =
+      .error .verify) := by
+  exact ⟨(multisig_verify_real tx i fl m keys sigs hfl (fieldsWF_of_WFc wf) hm1 hmn hn hsl hk hs hs1 hne).1 horacle,
+    multisig_committed_edit_rejects_real tx i e fl m keys sigs hfl hm1 hmn hn hsl hk hs hs1 hne wf wf' hB⟩
+
+theorem p2sh_p2pk_committed_edit_flips_real (body : Bytes) (ht : UInt8) (key : Bytes)
+    (hfl : fl.admissible = true) (hp : fl.p2sh = true) (hk : key.length + 2 < 0x4c) (hs : body.length + 1 < 0x4c)
+    (hne : body.length + 1 ≠ key.length)
+    (hC : Committed ht.toNat i e = true) (hch : changes ht.toNat i e tx)
+    (wf : WFc tx) (wf' : WFc (apply e tx)) (hr : Regular ht.toNat i tx) (hr' : Regular ht.toNat i (apply e tx))
+    (hcr : Crypto.hash256 (legacyPreimage (p2pkScript key) (apply e tx) i ht.toNat) =
+             Crypto.hash256 (legacyPreimage (p2pkScript key) tx i ht.toNat) →
+           legacyPreimage (p2pkScript key) (apply e tx) i ht.toNat = legacyPreimage (p2pkScript key) tx i ht.toNat)
+    (hunf : (legacySighash (p2pkScript key) (apply e tx) i ht.toNat).1 ≠ (legacySighash (p2pkScript key) tx i ht.toNat).1 →
+      ecdsaCheck body key (legacySighash (p2pkScript key) (apply e tx) i ht.toNat).1 = false)
+    (horacle : ecdsaCheck body key (legacySighash (p2pkScript key) tx i ht.toNat).1 = true) :
+    (verifyScript (realCtx tx (i : Int)) fl
+        (p2shScriptSig (p2pkScriptSig (body ++ [ht])) (p2pkScript key)) (p2shScript (realHashes.hash160 (p2pkScript key))) = .ok ()) ∧
+    (verifyScript (realCtx (apply e tx) (i : Int)) fl
+        (p2shScriptSig (p2pkScriptSig (body ++ [ht])) (p2pkScript key)) (p2shScript (realHashes.hash160 (p2pkScript key))) =
+      .error .verify) := by
+  exact ⟨(by rw [p2sh_p2pk_verify_real tx i fl body ht key hfl hp (fieldsWF_of_WFc wf) hk hs hne]; exact if_pos horacle),
+    p2sh_p2pk_committed_edit_rejects_real tx i e fl body ht key hfl hp hk hs hne hC hch wf wf' hr hr' hcr hunf⟩
+
+theorem p2sh_p2pkh_committed_edit_flips_real (body : Bytes) (ht : UInt8) (key : Bytes)
+    (hfl : fl.admissible = true) (hp : fl.p2sh = true) (hk : key.length < 0x4c) (hs : body.length + 1 < 0x4c)
+    (hne : body.length + 1 ≠ 20)
+    (hC : Committed ht.toNat i e = true) (hch : changes ht.toNat i e tx)
+    (wf : WFc tx) (wf' : WFc (apply e tx)) (hr : Regular ht.toNat i tx) (hr' : Regular ht.toNat i (apply e tx))
+    (hcr : Crypto.hash256 (legacyPreimage (p2pkhScript (realHashes.hash160 key)) (apply e tx) i ht.toNat) =
+             Crypto.hash256 (legacyPreimage (p2pkhScript (realHashes.hash160 key)) tx i ht.toNat) →
+           legacyPreimage (p2pkhScript (realHashes.hash160 key)) (apply e tx) i ht.toNat =
+             legacyPreimage (p2pkhScript (realHashes.hash160 key)) tx i ht.toNat)
+    (hunf : (legacySighash (p2pkhScript (realHashes.hash160 key)) (apply e tx) i ht.toNat).1 ≠
+        (legacySighash (p2pkhScript (realHashes.hash160 key)) tx i ht.toNat).1 →
+      ecdsaCheck body key (legacySighash (p2pkhScript (realHashes.hash160 key)) (apply e tx) i ht.toNat).1 = false)
+    (horacle : ecdsaCheck body key (legacySighash (p2pkhScript (realHashes.hash160 key)) tx i ht.toNat).1 = true) :
+    let redeem := p2pkhScript (realHashes.hash160 key)
+    (verifyScript (realCtx tx (i : Int)) fl (p2shScriptSig (p2pkhScriptSig (body ++ [ht]) key) redeem)
+        (p2shScript (realHashes.hash160 redeem)) = .ok ()) ∧
+    (verifyScript (realCtx (apply e tx) (i : Int)) fl (p2shScriptSig (p2pkhScriptSig (body ++ [ht]) key) redeem)
+        (p2shScript (realHashes.hash160 redeem)) = .error .verify) := by
+  intro redeem
+  exact ⟨(by
+    have := p2sh_p2pkh_verify_real tx i fl body ht key hfl hp (fieldsWF_of_WFc wf) hk hs hne
+    simp only at this
+    rw [this]; exact if_pos horacle),
+    p2sh_p2pkh_committed_edit_rejects_real tx i e fl body ht key hfl hp hk hs hne hC hch wf wf' hr hr' hcr hunf⟩
+
+theorem p2sh_multisig_committed_edit_flips_real (m : Nat) (keys sigs : List Bytes)
+    (hfl : fl.admissible = true) (hp : fl.p2sh = true) (hm1 : 1 ≤ m) (hmn : m ≤ keys.length)
+    (hn : keys.length ≤ 20) (hsl : sigs.length = m) (hk : ∀ k ∈ keys, k.length < 0x4c)
+    (hs : ∀ s ∈ sigs, s.length < 0x4c) (hs1 : ∀ s ∈ sigs, s.length ≠ 1)
+    (hne : ∀ s ∈ sigs, ∀ k ∈ keys, s.length ≠ k.length) (hrl : (multisigScript m keys).length ≤ 520)
+    (wf : WFc tx) (wf' : WFc (apply e tx))
+    (hB : ∀ s ∈ sigs, ∀ ht, s.getLast? = some ht →
+      Committed ht.toNat i e = true ∧ changes ht.toNat i e tx ∧ Regular ht.toNat i tx ∧
+      Regular ht.toNat i (apply e tx) ∧
+      (Crypto.hash256 (legacyPreimage (multisigScript m keys) (apply e tx) i ht.toNat) =
+          Crypto.hash256 (legacyPreimage (multisigScript m keys) tx i ht.toNat) →
+        legacyPreimage (multisigScript m keys) (apply e tx) i ht.toNat =
+          legacyPreimage (multisigScript m keys) tx i ht.toNat) ∧
+      (∀ k ∈ keys, (legacySighash (multisigScript m keys) (apply e tx) i ht.toNat).1 ≠
+          (legacySighash (multisigScript m keys) tx i ht.toNat).1 →
+        ecdsaCheck s.dropLast k (legacySighash (multisigScript m keys) (apply e tx) i ht.toNat).1 = false))
+    (horacle : Matching (chkSig (txEnv realHashes ecdsaCheck tx i) (multisigScript m keys)) sigs keys) :
+    let redeem := multisigScript m keys
+    (verifyScript (realCtx tx (i : Int)) fl (p2shScriptSig (multisigScriptSig sigs) redeem)
+        (p2shScript (realHashes.hash160 redeem)) = .ok ()) ∧
+    (verifyScript (realCtx (apply e tx) (i : Int)) fl (p2shScriptSig (multisigScriptSig sigs) redeem)
+        (p2shScript (realHashes.hash160 redeem)) = .error .verify) := by
+  intro redeem
+  exact ⟨(p2sh_multisig_verify_real tx i fl m keys sigs hfl hp (fieldsWF_of_WFc wf) hm1 hmn hn hsl hk hs hs1 hne hrl).1 horacle,
+    p2sh_multisig_committed_edit_rejects_real tx i e fl m keys sigs hfl hp hm1 hmn hn hsl hk hs hs1 hne hrl wf wf' hB⟩
 
 end realedits
 
@@ -1426,5 +1736,34 @@ example
       exact fun h => hne h.symm)
 
 end toy
+
+/-! ### a `_real` theorem instantiated: everything discharged but the cryptographic hypotheses -/
+
+section realexample
+open BtcVerif.Model.ScriptEval BtcVerif.Spec.Script BtcVerif.Spec.Templates BtcVerif.C05T
+open BtcVerif.Model.ScriptEval.Real
+
+/-- the model of the library (`Real.realCtx`: modelled RawSignatureHash + Lean ECDSA + real hashes),
+    pay-to-pubkey, input 1 of `exTx`, SINGLE|ANYONECANPAY, output 1 edited: all structural hypotheses
+    of `p2pk_committed_edit_flips_real` hold; what remains are exactly the three cryptographic ones —
+    the verifier accepts the signature for the original digest (`horacle`), SHA-256d does not collide
+    on the two messages (`hcr`), the kept signature does not verify for the new digest (`hunf`) -/
+example (body : Bytes) (hs : body.length + 1 < 0x4c) (hne : body.length + 1 ≠ 33)
+    (horacle : ecdsaCheck body (exKey 5) (legacySighash (p2pkScript (exKey 5)) exTx 1 (0x83 : UInt8).toNat).1 = true)
+    (hcr : Crypto.hash256 (legacyPreimage (p2pkScript (exKey 5)) (apply (.setValue 1 5) exTx) 1 (0x83 : UInt8).toNat) =
+             Crypto.hash256 (legacyPreimage (p2pkScript (exKey 5)) exTx 1 (0x83 : UInt8).toNat) →
+           legacyPreimage (p2pkScript (exKey 5)) (apply (.setValue 1 5) exTx) 1 (0x83 : UInt8).toNat =
+             legacyPreimage (p2pkScript (exKey 5)) exTx 1 (0x83 : UInt8).toNat)
+    (hunf : (legacySighash (p2pkScript (exKey 5)) (apply (.setValue 1 5) exTx) 1 (0x83 : UInt8).toNat).1 ≠
+        (legacySighash (p2pkScript (exKey 5)) exTx 1 (0x83 : UInt8).toNat).1 →
+      ecdsaCheck body (exKey 5) (legacySighash (p2pkScript (exKey 5)) (apply (.setValue 1 5) exTx) 1 (0x83 : UInt8).toNat).1 = false) :
+    verifyScript (realCtx exTx (1 : Nat)) exFlags (p2pkScriptSig (body ++ [0x83])) (p2pkScript (exKey 5)) = .ok () ∧
+    verifyScript (realCtx (apply (.setValue 1 5) exTx) (1 : Nat)) exFlags (p2pkScriptSig (body ++ [0x83]))
+      (p2pkScript (exKey 5)) = .error .verify :=
+  p2pk_committed_edit_flips_real exTx 1 (.setValue 1 5) exFlags body 0x83 (exKey 5) (by decide) (by decide) hs
+    (by simpa [exKey] using hne) (by decide) ⟨.value 1, by decide, by decide⟩ exTx_wf exTx_edited_wf (by decide)
+    (by decide) hcr hunf horacle
+
+end realexample
 
 end BtcVerif.C05
